@@ -224,6 +224,16 @@ def _integrator(run, ci):
     else:
         run.fail('C10-R2', K + 'accumulation', ci.mod.relpath, (acc[0] if acc else lp).lineno,
                  '%s.integrate does not add dt to the running length for every sample taken while a source is active' % ci.name)
+    # every sample reaches the source-change test: a sample skipped before it (continue / break) leaves the previous source 'current', so the
+    # length of the cells that follow -- which belong to no source or to another one -- is credited to it
+    chg_ = [s for s in lp.body if isinstance(s, ast.If) and cur in norm(s.test) and ISRC in norm(s.test)]
+    for j_ in [x for x in ast.walk(lp) if isinstance(x, (ast.Continue, ast.Break))]:
+        top_ = next((s for s in lp.body if any(y is j_ for y in ast.walk(s))), None)
+        if top_ is not None and chg_ and lp.body.index(top_) < lp.body.index(chg_[0]):
+            run.subject('C10-R2')
+            run.fail('C10-R2', K + 'sample-skipped', ci.mod.relpath, j_.lineno,
+                     '%s.integrate leaves a sample (%s under %s) before the source-change test: the source that was current stays current, and the '
+                     'samples taken in the following cells keep adding to its length' % (ci.name, type(j_).__name__.lower(), norm(top_.test)[:40] if isinstance(top_, ast.If) else '?'))
     # reset only after flush
     resets = [st for st in ast.walk(lp) if isinstance(st, ast.Assign) and norm(st.targets[0]) == RES]
     run.subject('C10-R2')
